@@ -3,7 +3,8 @@
    redefinition and converter attach / detach / removal; arbitrary environment inputs for tag uncertainty and
    converter work; API calls and
    job steps in any order, any captures, readable or not, either View.fetch variant, ANY merge function):
-   the theorems do not depend on what a merge writes, only on the lock/release discipline. *)
+   the theorems do not depend on what a merge writes, only on the lock/release discipline.
+   C13_startup_*: the same for a service started by manager.New on an existing index directory. *)
 From Coq Require Import List NArith Bool.
 Require Import Pk.Indexes Pk.IndexesProofs.
 Import ListNotations.
@@ -14,36 +15,99 @@ Variable capdb : N -> capture.               (* contents of the capture files *)
 Variable bad : N -> bool.                    (* which capture files cannot be read *)
 Variable refetch_empty : bool.               (* which View.fetch the code has *)
 Variable merge : list file -> list entry.    (* what index.Merge writes *)
+(* Start state = what manager.New builds from the index directory: the files index.NewReader accepts are served
+   (fs, in file name order), the files it rejects stay in the directory untouched (junk); P = captures known.
+   The empty directory is fs = junk = P = []  (theorems C13_*; init = init_from [] [] [] by computation). *)
+Variable fs : list file.
+Variable junk : list N.
+Variable P : list N.
+Hypothesis distinct_files : NoDup (map f_uid fs ++ junk).
+
+Let run (acts : list action) : state := fold_left (step capdb bad refetch_empty merge) acts (init_from capdb fs junk P).
+Let I13 (acts : list action) := run_inv13_start junk capdb bad refetch_empty merge fs P acts distinct_files.
+Let U13 (acts : list action) := run_uniq_start junk capdb bad refetch_empty merge fs P acts distinct_files.
+
+(* usedIndexes[u] = (1 if u is in the service list) + number of views and import / merge / tagging / converter jobs holding u *)
+Theorem C13_startup_use_count_is_number_of_holders : forall acts u,
+  cnt (used (run acts)) u =
+    occ u (indexes (run acts)) + occ_views u (views (run acts))
+    + occ u (ij_files (ijob (run acts))) + occ u (mj_files (mjob (run acts))) + occ u (tj_files (tjob (run acts)))
+    + occ u (cj_files (cjob (run acts))).
+Proof. intros. exact (inv13_count junk _ u (I13 acts)). Qed.
+
+(* ... and a file occurs at most once in the service list, so the first summand is 0 or 1 *)
+Theorem C13_startup_service_list_without_duplicates : forall acts,
+  NoDup (map f_uid (indexes (run acts))).
+Proof. intros. exact (uniq_nodup _ (U13 acts)). Qed.
+
+(* no holder ever references a closed-and-removed file *)
+Theorem C13_startup_held_files_exist : forall acts f,
+  In f (indexes (run acts)) \/ held_by_view (run acts) f \/ held_by_job (run acts) f ->
+  In (f_uid f) (disk (run acts)).
+Proof. intros acts f. exact (inv13_holder_on_disk junk _ f (I13 acts)). Qed.
+
+(* a file is in the directory exactly while its count is non-zero, or its writer has not completed, or it is one of
+   the files manager.New could not load *)
+Theorem C13_startup_file_exists_iff_in_use : forall acts u,
+  In u (disk (run acts)) <-> 0 < cnt (used (run acts)) u \/ being_written (run acts) u \/ In u junk.
+Proof. intros acts u. exact (inv13_disk_iff junk _ u (I13 acts)). Qed.
+
+Theorem C13_startup_file_being_written_is_not_counted : forall acts u,
+  being_written (run acts) u -> cnt (used (run acts)) u = 0.
+Proof. intros acts u. exact (inv13_written_unused junk _ u (I13 acts)). Qed.
+
+(* a file manager.New could not load is never counted, never served and never removed: it stays for ever *)
+Theorem C13_startup_unloadable_file_stays : forall acts u,
+  In u junk ->
+  cnt (used (run acts)) u = 0 /\ ~ In u (map f_uid (indexes (run acts))) /\ In u (disk (run acts)).
+Proof. intros acts u. exact (inv13_junk junk _ u (I13 acts)). Qed.
+
+(* at quiescence the directory is the service list plus the unloadable files, and every count is 1 *)
+Theorem C13_startup_quiescent_directory : forall acts u,
+  quiescent (run acts) ->
+  (In u (disk (run acts)) <-> In u (map f_uid (indexes (run acts))) \/ In u junk) /\
+  cnt (used (run acts)) u = (if existsb (N.eqb u) (map f_uid (indexes (run acts))) then 1 else 0).
+Proof. intros acts u. exact (inv13_quiescent junk _ u (I13 acts) (U13 acts)). Qed.
+
+End C13.
+
+(* ---------------------------------------------------------------- the service started on an empty directory *)
+Section C13_empty.
+Variable capdb : N -> capture.
+Variable bad : N -> bool.
+Variable refetch_empty : bool.
+Variable merge : list file -> list entry.
 
 Let run (acts : list action) : state := fold_left (step capdb bad refetch_empty merge) acts init.
 
-(* usedIndexes[u] = (1 if u is in the service list) + number of views and import / merge / tagging / converter jobs holding u *)
 Theorem C13_use_count_is_number_of_holders : forall acts u,
   cnt (used (run acts)) u =
     occ u (indexes (run acts)) + occ_views u (views (run acts))
     + occ u (ij_files (ijob (run acts))) + occ u (mj_files (mjob (run acts))) + occ u (tj_files (tjob (run acts)))
     + occ u (cj_files (cjob (run acts))).
-Proof. intros. exact (inv13_count _ u (run_inv13 capdb bad refetch_empty merge acts)). Qed.
+Proof. exact (C13_startup_use_count_is_number_of_holders capdb bad refetch_empty merge [] [] [] (NoDup_nil N)). Qed.
 
-(* ... and a file occurs at most once in the service list, so the first summand is 0 or 1 *)
 Theorem C13_service_list_without_duplicates : forall acts,
   NoDup (map f_uid (indexes (run acts))).
-Proof. intros. exact (uniq_nodup _ (run_uniq capdb bad refetch_empty merge acts)). Qed.
+Proof. exact (C13_startup_service_list_without_duplicates capdb bad refetch_empty merge [] [] [] (NoDup_nil N)). Qed.
 
-(* no holder ever references a closed-and-removed file *)
 Theorem C13_held_files_exist : forall acts f,
   In f (indexes (run acts)) \/ held_by_view (run acts) f \/ held_by_job (run acts) f ->
   In (f_uid f) (disk (run acts)).
-Proof. intros acts f. exact (inv13_holder_on_disk _ f (run_inv13 capdb bad refetch_empty merge acts)). Qed.
+Proof. exact (C13_startup_held_files_exist capdb bad refetch_empty merge [] [] [] (NoDup_nil N)). Qed.
 
 (* a file is in the directory exactly while its count is non-zero or its writer has not completed *)
 Theorem C13_file_exists_iff_in_use : forall acts u,
   In u (disk (run acts)) <-> 0 < cnt (used (run acts)) u \/ being_written (run acts) u.
-Proof. intros acts u. exact (inv13_disk_iff _ u (run_inv13 capdb bad refetch_empty merge acts)). Qed.
+Proof.
+  intros acts u.
+  pose proof (C13_startup_file_exists_iff_in_use capdb bad refetch_empty merge [] [] [] (NoDup_nil N) acts u) as H.
+  simpl in H. unfold run. tauto.
+Qed.
 
 Theorem C13_file_being_written_is_not_counted : forall acts u,
   being_written (run acts) u -> cnt (used (run acts)) u = 0.
-Proof. intros acts u. exact (inv13_written_unused _ u (run_inv13 capdb bad refetch_empty merge acts)). Qed.
+Proof. exact (C13_startup_file_being_written_is_not_counted capdb bad refetch_empty merge [] [] [] (NoDup_nil N)). Qed.
 
 (* at quiescence the directory is exactly the service list and every count is 1 *)
 Theorem C13_quiescent_directory_is_service_list : forall acts u,
@@ -51,11 +115,12 @@ Theorem C13_quiescent_directory_is_service_list : forall acts u,
   (In u (disk (run acts)) <-> In u (map f_uid (indexes (run acts)))) /\
   cnt (used (run acts)) u = (if existsb (N.eqb u) (map f_uid (indexes (run acts))) then 1 else 0).
 Proof.
-  intros acts u.
-  exact (inv13_quiescent _ u (run_inv13 capdb bad refetch_empty merge acts) (run_uniq capdb bad refetch_empty merge acts)).
+  intros acts u Q.
+  destruct (C13_startup_quiescent_directory capdb bad refetch_empty merge [] [] [] (NoDup_nil N) acts u Q) as [A B].
+  split; [|exact B]. simpl in A. unfold run. tauto.
 Qed.
 
-End C13.
+End C13_empty.
 
 (* Non-vacuity: a concrete history in which a view and an import job hold files across the merge that
    replaces them; the replaced files stay on disk until the last holder lets go, then disappear. *)
@@ -103,3 +168,19 @@ Example ex_converter_job_holds_list :
   (used st1 = [(0, 2); (1, 1); (2, 1)] /\ mjob st1 = None /\ map f_uid (cj_files (cjob st1)) = [0]) /\
   (used st2 = [(0, 2); (1, 2); (2, 2)] /\ cjob st2 = None /\ map f_uid (mj_files (mjob st2)) = [0; 1; 2]).
 Proof. vm_compute. repeat split. Qed.
+
+(* Non-vacuity of the start-up hypotheses: a directory with two loadable files (uids 3 and 5) and one file
+   index.NewReader rejects (uid 4). One more import, the merge it triggers: the unloadable file is still there. *)
+Example ex_startup_with_unloadable_file :
+  let capdb := fun k : N => match k with 0 => [(0, 3)] | 1 => [(1, 2)] | 2 => [(2, 1)] | _ => [] end in
+  let fs := [mkFile 3 [mkEntry 0 0 3]; mkFile 5 [mkEntry 1 1 2]] in
+  let st0 := init_from capdb fs [4] [0; 1] in
+  let st := fold_left (step_impl capdb (fun _ => false))
+              [AImport [2]; AStart KImport; AComplete KImport; AStart KMerge; AComplete KMerge] st0 in
+  NoDup (map f_uid fs ++ [4]) /\
+  used st0 = [(3, 1); (5, 1)] /\ disk st0 = [3; 5; 4] /\
+  map f_uid (indexes st) = [7] /\ used st = [(7, 1)] /\ disk st = [7; 4] /\ quiescent st.
+Proof.
+  vm_compute. split; [|repeat split].
+  repeat constructor; simpl; intuition discriminate.
+Qed.
